@@ -157,9 +157,16 @@ impl<'m> MapSession<'m> {
         let t = lg.tid;
         // SAFETY of the lifetime games below: references are converted to numbers (or to raw
         // pointers for the canary) before the guard can be released.
+        // a foreign guard reaches the map either directly (guard-passing API) or through a
+        // reference wrapper made by `with_guard`
+        let wg = fg.map(|g| map.with_guard(g));
         macro_rules! with_guard {
             ($g:ident, $body:expr, $r:ident, $pbody:expr) => {
                 match (&self.g, fg) {
+                    (MG::Pin(_), Some(_)) => {
+                        let $r = wg.as_ref().unwrap();
+                        $pbody
+                    }
                     (_, Some($g)) => $body,
                     (MG::Guard(gg), None) => {
                         let $g = gg;
@@ -297,13 +304,10 @@ impl<'m> MapSession<'m> {
                 }
             }
             "len" => {
-                let n = match &self.g {
-                    MG::Pin(r) => r.len(),
-                    _ => map.len(),
-                };
-                let e = match &self.g {
-                    MG::Pin(r) => r.is_empty(),
-                    _ => map.is_empty(),
+                let (n, e) = match (&self.g, wg.as_ref()) {
+                    (MG::Pin(_), Some(r)) => (r.len(), r.is_empty()),
+                    (MG::Pin(r), None) => (r.len(), r.is_empty()),
+                    _ => (map.len(), map.is_empty()),
                 };
                 out.insert("n".into(), json!(n));
                 out.insert("empty".into(), json!(e as u8));
@@ -422,8 +426,9 @@ impl<'m> MapSession<'m> {
                 out.insert("ok".into(), json!(eq as u8));
             }
             "debug" => {
-                let s = match &self.g {
-                    MG::Pin(r) => format!("{:?}", r),
+                let s = match (&self.g, wg.as_ref()) {
+                    (MG::Pin(_), Some(r)) => format!("{:?}", r),
+                    (MG::Pin(r), None) => format!("{:?}", r),
                     _ => format!("{:?}", map),
                 };
                 // entries "Kid.tag: Vpayload"
@@ -439,10 +444,12 @@ impl<'m> MapSession<'m> {
             }
             "index" => {
                 let k = Key::probe(op.k);
-                let r = self.map.pin();
-                let v: &Val = &r[&k];
+                let uid = match wg.as_ref() {
+                    Some(r) => r[&k].uid,
+                    None => self.map.pin()[&k].uid,
+                };
                 out.insert("ok".into(), json!(1));
-                out.insert("v".into(), json!(v.uid));
+                out.insert("v".into(), json!(uid));
             }
             "yield" => {}
             other => {
@@ -486,9 +493,14 @@ impl<'m> SetSession<'m> {
         let set = self.set;
         let mut out = res();
         let t = lg.tid;
+        let wg = fg.map(|g| set.with_guard(g));
         macro_rules! with_guard {
             ($g:ident, $body:expr, $r:ident, $pbody:expr) => {
                 match (&self.g, fg) {
+                    (SG::Pin(_), Some(_)) => {
+                        let $r = wg.as_ref().unwrap();
+                        $pbody
+                    }
                     (_, Some($g)) => $body,
                     (SG::Guard(gg), None) => {
                         let $g = gg;
@@ -543,8 +555,9 @@ impl<'m> SetSession<'m> {
                 out.insert("tag".into(), json!(v.map(|k| k.tag).unwrap_or(0)));
             }
             "len" => {
-                let (n, e) = match &self.g {
-                    SG::Pin(r) => (r.len(), r.is_empty()),
+                let (n, e) = match (&self.g, wg.as_ref()) {
+                    (SG::Pin(_), Some(r)) => (r.len(), r.is_empty()),
+                    (SG::Pin(r), None) => (r.len(), r.is_empty()),
                     _ => (set.len(), set.is_empty()),
                 };
                 out.insert("n".into(), json!(n));
@@ -559,9 +572,14 @@ impl<'m> SetSession<'m> {
             "iter" | "keys" => {
                 lg.log(json!({"e": "itnew", "t": t, "i": i}));
                 let mut items: Vec<(u32, u32, u64)> = vec![];
+                let mut count = 0u32;
                 let mut cb = |k: &Key| {
+                    count += 1;
                     lg.log(json!({"e": "yield", "t": t, "i": i, "k": k.id, "tag": k.tag, "v": 1}));
                     items.push((k.id, k.tag, 1));
+                    if op.panic_at != 0 && count == op.panic_at {
+                        panic!("injected");
+                    }
                 };
                 with_guard!(
                     g,
@@ -577,9 +595,14 @@ impl<'m> SetSession<'m> {
                 out.insert("items".into(), items_json(items));
             }
             "retain" => {
+                let mut count = 0u32;
                 let pred = |k: &Key| -> bool {
+                    count += 1;
                     let verdict = pred_verdict(&op.f, &op.keys, op.n, k, 0);
                     lg.log(json!({"e": "pred", "t": t, "i": i, "k": k.id, "v": 1, "keep": verdict as u8}));
+                    if op.panic_at != 0 && count == op.panic_at {
+                        panic!("injected");
+                    }
                     verdict
                 };
                 with_guard!(g, set.retain(pred, g), r, r.retain(pred));
@@ -591,8 +614,8 @@ impl<'m> SetSession<'m> {
             }
             "is_disjoint" | "is_subset" | "is_superset" => {
                 let o = other_set(&op.keys);
-                let b = match &self.g {
-                    SG::Pin(r) => {
+                let b = match (&self.g, wg.as_ref()) {
+                    (SG::Pin(_), Some(r)) => {
                         let or = o.pin();
                         match op.op.as_str() {
                             "is_disjoint" => r.is_disjoint(&or),
@@ -600,7 +623,15 @@ impl<'m> SetSession<'m> {
                             _ => r.is_superset(&or),
                         }
                     }
-                    SG::Guard(g) => {
+                    (SG::Pin(r), None) => {
+                        let or = o.pin();
+                        match op.op.as_str() {
+                            "is_disjoint" => r.is_disjoint(&or),
+                            "is_subset" => r.is_subset(&or),
+                            _ => r.is_superset(&or),
+                        }
+                    }
+                    (SG::Guard(g), _) => {
                         let og = o.guard();
                         let g = fg.unwrap_or(g);
                         match op.op.as_str() {
@@ -628,8 +659,9 @@ impl<'m> SetSession<'m> {
                 out.insert("ok".into(), json!((*set == o) as u8));
             }
             "debug" => {
-                let s = match &self.g {
-                    SG::Pin(r) => format!("{:?}", r),
+                let s = match (&self.g, wg.as_ref()) {
+                    (SG::Pin(_), Some(r)) => format!("{:?}", r),
+                    (SG::Pin(r), None) => format!("{:?}", r),
                     _ => format!("{:?}", set),
                 };
                 let mut ents: Vec<String> = s
